@@ -102,8 +102,35 @@ func globalComp(o types.Object) string {
 func (x *Exec) globalAddr(o types.Object) *Term {
 	k := x.eng.embIndex("global:" + o.Pkg().Path() + "." + o.Name())
 	// globals live at small constant addresses k*embN (multiples of embN, below every allocation)
-	_ = k
 	return x.c.Int(k * embN)
+}
+
+// globalObj: reference of a package-level object variable; for never-assigned arrays with a
+// constant initialiser the element values are asserted (once per state chain).
+func (x *Exec) globalObj(st *State, v *types.Var) *Term {
+	ref := x.globalAddr(v)
+	if x.specMode {
+		return ref
+	}
+	key := v.Pkg().Path() + "." + v.Name()
+	if x.globalInit[key] {
+		return ref
+	}
+	x.globalInit[key] = true
+	vals, ok := x.eng.prog.constArrayInit(v)
+	if !ok {
+		return ref
+	}
+	at := v.Type().Underlying().(*types.Array)
+	m := x.heapGet(st, memComp(at.Elem()), x.memSort(at.Elem()))
+	// facts are about the entry memory: the variable is never assigned anywhere in the loaded packages
+	m0 := x.c.Const("H0_"+sanitize(memComp(at.Elem())), x.memSort(at.Elem()))
+	_ = m
+	for i, bv := range vals {
+		x.assumeGlobal(st, x.c.Eq(x.c.Select(x.c.Select(m0, ref), x.idxLit(int64(i))), x.intLit(at.Elem(), bv)))
+	}
+	x.assumed["package variable "+v.Pkg().Name()+"."+v.Name()+" is never assigned: elements equal its initialiser"] = true
+	return ref
 }
 
 func (x *Exec) lvalue(st *State, e ast.Expr) LV {
@@ -138,7 +165,7 @@ func (x *Exec) lvalue(st *State, e ast.Expr) LV {
 		}
 		if isPkgLevel(v) {
 			if isObjType(v.Type()) {
-				return LV{kind: lvObj, ref: x.globalAddr(v), typ: v.Type()}
+				return LV{kind: lvObj, ref: x.globalObj(st, v), typ: v.Type()}
 			}
 			return LV{kind: lvGlobal, obj: v, typ: v.Type()}
 		}
@@ -169,7 +196,7 @@ func (x *Exec) lvalue(st *State, e ast.Expr) LV {
 		obj := x.info.Uses[e.Sel]
 		if v, ok := obj.(*types.Var); ok {
 			if isObjType(v.Type()) {
-				return LV{kind: lvObj, ref: x.globalAddr(v), typ: v.Type()}
+				return LV{kind: lvObj, ref: x.globalObj(st, v), typ: v.Type()}
 			}
 			return LV{kind: lvGlobal, obj: v, typ: v.Type()}
 		}
@@ -533,7 +560,7 @@ func (x *Exec) expr(st *State, e ast.Expr) Val {
 		switch o := obj.(type) {
 		case *types.Var:
 			if isObjType(o.Type()) {
-				return Val{Typ: o.Type(), T: x.globalAddr(o)}
+				return Val{Typ: o.Type(), T: x.globalObj(st, o)}
 			}
 			return x.loadGlobal(st, o)
 		case *types.Func:
@@ -589,7 +616,7 @@ func (x *Exec) identVal(st *State, e *ast.Ident) Val {
 	case *types.Var:
 		if isPkgLevel(o) {
 			if isObjType(o.Type()) {
-				return Val{Typ: o.Type(), T: x.globalAddr(o)}
+				return Val{Typ: o.Type(), T: x.globalObj(st, o)}
 			}
 			return x.loadGlobal(st, o)
 		}
